@@ -3858,11 +3858,13 @@ func (s *ImmuStore) TruncateUptoTx(minTxID uint64) error {
 				merr.Append(err)
 				continue
 			}
-			defer s.releaseVLog(vLogID)
-
 			s.logger.Infof("truncating vlog '%d' at offset '%d'", vLogID, offset)
 			err = vlog.DiscardUpto(offset)
 			merr.Append(err)
+
+			// each value log is released as soon as it was truncated: holding several of them (acquired in
+			// map iteration order) until the function returns made concurrent truncations block each other
+			s.releaseVLog(vLogID)
 		}
 	}
 
